@@ -949,24 +949,67 @@ def rule_m15(F):
     defs = mir.Defs(b)
     argc = b.mir["argc"]
     added = "arg%d" % argc
-    n = 0
+
+    def xdeps(bb, dd, l, depth=0):
+        """deps, with calls of the list's own helpers expanded by what their result depends on (`self.needed_capacity(added)`)"""
+        out = set()
+        helper_calls = [d for d in dd.whole_defs(l) if d[2] == "call" and (mir.callee(d[3]) or "").startswith("value::list::") and F.has(mir.callee(d[3])) and depth < 3]
+        if helper_calls:
+            for d in helper_calls:
+                hb = F.body(mir.callee(d[3]))
+                if hb is None or not hb.mir:
+                    continue
+                hd = mir.Defs(hb)
+                for root in xdeps(hb, hd, 0, depth + 1):
+                    head, _, rest = root.partition(".")
+                    if head.startswith("arg") and head[3:].isdigit() and int(head[3:]) <= len(d[3]["args"]):
+                        o = d[3]["args"][int(head[3:]) - 1]
+                        if mir.is_place_op(o):
+                            if 1 <= o[1][0] <= bb.mir["argc"]:
+                                out.add("arg%d" % o[1][0] + ("." + rest if rest else ""))
+                            else:
+                                out |= {x + ("." + rest if rest else "") for x in xdeps(bb, dd, o[1][0], depth + 1)}
+            return out
+        ds = deps(bb, dd, l)
+        # follow plain copies of helper results
+        for d in dd.whole_defs(l):
+            if d[2] == "assign":
+                for x in mir.rv_locals(d[3]["rv"]):
+                    if any(y[2] == "call" and (mir.callee(y[3]) or "").startswith("value::list::") for y in dd.whole_defs(x)) and depth < 3:
+                        ds |= xdeps(bb, dd, x, depth + 1)
+        return ds
+
+    # where the new capacity is stored: in reserve itself, or in a helper of the list that stores the value it is handed (`grow_to(n)`)
+    sinks = []       # (body, defs, line, locals whose value is stored)
     for bi, blk in enumerate(b.blocks):
         for st in blk["stmts"]:
-            if st["k"] != "assign" or len(st["p"]) < 2 or st["p"][0] != 1:
-                continue
-            if not any(isinstance(x, list) and x and x[0] == "f" and len(x) > 2 and x[2] == "capacity" for x in st["p"][1:]):
-                continue
-            n += 1
-            ds = set()
-            for l in mir.rv_locals(st["rv"]):
-                ds |= deps(b, defs, l)
-            has_len = any(x.startswith("arg1") and x.split(".")[-1] == "len" or ".len" in x for x in ds if x.startswith("arg1"))
-            has_added = any(x.split(".")[0] == added for x in ds)
-            r.inst("self.capacity = .. #%d" % n, {"line": st.get("line"), "depends_on_length": has_len, "depends_on_added": has_added})
-            if not (has_len and has_added):
-                r.bad(b.path, "new capacity not computed from len + added", relfile(b.file), st.get("line") or b.line,
-                      "the value stored as the new capacity depends on %s only: after reserve(added) there need not be room for len + added elements - `[a, b, c] + [six elements]` "
-                      "writes the right operand past the allocation" % ("`added`" if has_added else "the old length / capacity" if has_len else "neither the length nor `added`"))
+            if st["k"] == "assign" and len(st["p"]) >= 2 and st["p"][0] == 1 and any(isinstance(x, list) and x and x[0] == "f" and len(x) > 2 and x[2] == "capacity" for x in st["p"][1:]):
+                sinks.append((st.get("line"), mir.rv_locals(st["rv"])))
+    for bi, t in mir.calls(b):
+        hb = F.body(mir.callee(t) or "") if (mir.callee(t) or "").startswith("value::list::") and F.has(mir.callee(t) or "") else None
+        if hb is None or not hb.mir or hb.path == b.path:
+            continue
+        hd = mir.Defs(hb)
+        for blk2 in hb.blocks:
+            for st in blk2["stmts"]:
+                if st["k"] == "assign" and len(st["p"]) >= 2 and st["p"][0] == 1 and any(isinstance(x, list) and x and x[0] == "f" and len(x) > 2 and x[2] == "capacity" for x in st["p"][1:]):
+                    for l in mir.rv_locals(st["rv"]):
+                        root, _p = mir.origin(hb, hd, [l])
+                        if root.startswith("arg") and root[3:].isdigit() and 2 <= int(root[3:]) <= len(t["args"]) and mir.is_place_op(t["args"][int(root[3:]) - 1]):
+                            sinks.append((t.get("line"), [t["args"][int(root[3:]) - 1][1][0]]))
+    n = 0
+    for line, locals_ in sinks:
+        n += 1
+        ds = set()
+        for l in locals_:
+            ds |= xdeps(b, defs, l)
+        has_len = any(x.startswith("arg1") and x.split(".")[-1] == "len" for x in ds)
+        has_added = any(x.split(".")[0] == added for x in ds)
+        r.inst("self.capacity = .. #%d" % n, {"line": line, "depends_on_length": has_len, "depends_on_added": has_added})
+        if not (has_len and has_added):
+            r.bad(b.path, "new capacity not computed from len + added", relfile(b.file), line or b.line,
+                  "the value stored as the new capacity depends on %s only: after reserve(added) there need not be room for len + added elements - `[a, b, c] + [six elements]` "
+                  "writes the right operand past the allocation" % ("`added`" if has_added else "the old length / capacity" if has_len else "neither the length nor `added`"))
     if n == 0:
         r.missing("the assignment to self.capacity in RawList::reserve")
     return r
